@@ -120,6 +120,10 @@ class Effects:
                                 kind2 = 'assign'   # moved-from
                             else:
                                 kind2 = 'write-through'
+                            # a temporary (value returned by a call, e.g. v.begin()) handed over by && is not object state
+                            an = f.nodes[f.strip(a, 'noop')]
+                            if an['k'] in CALL_KINDS and 'callee' in an and not (an['callee']['ret'].endswith('&') or an['callee']['ret'].endswith('*')):
+                                continue
                             rk = _root_key(*root_of(f, a))
                             if rk is not None:
                                 d.append((n['id'], rk[0], rk[1], kind2))
